@@ -245,3 +245,40 @@ Proof.
   all: unfold body_of, emit_record; cbn [e_method e_error e_etype e_stream e_sid e_captured e_stats e_emsg e_cancelled e_http shp debug].
   all: solve_valid.
 Qed.
+
+(* ------------------------------------------------------------------ from requests to emissions *)
+Lemma method_of_nonempty : forall p h, method_of p h <> [].
+Proof. intros [|] [|]; vm_compute; discriminate. Qed.
+
+Lemma emissions_ok : forall c q sid e,
+  sid <> [] -> field_ok P (s "stream_id", JStr sid) = true -> In e (emissions c q sid) -> em_ok e.
+Proof.
+  intros [[|] dbg sh] q sid e Hne Hok Hin; destruct q; cbn [emissions tr] in Hin; try contradiction;
+    destruct Hin as [<-|[]]; unfold mk, em_ok;
+    repeat match goal with
+           | |- context [match ?w with WOk => _ | WRaise _ => _ | WEscape _ => _ end] => destruct w eqn:?
+           | |- context [if ?b then _ else _] => destruct b eqn:?
+           end;
+    cbn [e_method e_error e_etype e_stream e_sid e_http e_captured http500 http_inband];
+    repeat split; try (intros; first [assumption | discriminate | reflexivity | apply method_of_nonempty | (vm_compute; discriminate)]);
+    try (left; reflexivity); try (right; left; reflexivity); try (right; right; reflexivity); try tauto.
+Qed.
+
+Lemma one_record : forall c q sid, List.length (emissions c q sid) = if dispatched c q then 1%nat else 0%nat.
+Proof. intros [[|] dbg sh] q sid; destruct q; reflexivity. Qed.
+
+(* the recorded outcome is the outcome the client gets (fixed shape) *)
+Lemma emissions_outcome : forall c q sid e,
+  shp c = fixed_shape -> In e (emissions c q sid) ->
+  match outcome c q with
+  | None => e_error e = false /\ e_etype e = [] /\ e_emsg e = []
+  | Some x => e_error e = true /\ e_etype e = xcls x /\ e_emsg e = xmsg x
+  end.
+Proof.
+  intros [[|] dbg sh] q sid e Hs Hin; cbn [shp] in Hs; subst sh; destruct q; cbn [emissions tr shp] in Hin; try contradiction;
+    destruct Hin as [<-|[]]; cbn [outcome tr]; unfold mk, http_shell, http_msg; cbn [fixed_shape escape_marked msg_limit];
+    repeat match goal with
+           | |- context [match ?w with WOk => _ | WRaise _ => _ | WEscape _ => _ end] => destruct w eqn:?
+           end;
+    cbn [e_error e_etype e_emsg]; repeat split; reflexivity.
+Qed.
